@@ -65,6 +65,9 @@ let tokens_of (input : n list) (max : int) : string =
 let show_entries (adds : smadd list) : string =
   String.concat ";" (List.map (fun e -> Printf.sprintf "%d,%d,%d,%d" (int_of_z e.se_sl) (int_of_z e.se_sc) (int_of_z e.se_tl) (int_of_z e.se_tc)) (sm_entries adds))
 
+let show_adds (adds : smadd list) : string =
+  String.concat ";" (List.map (fun a -> Printf.sprintf "%s,%d,%d,%d,%d" (hex_of_bytes a.sa_lit) (int_of_z a.sa_line) (int_of_z a.sa_col) (int_of_z a.sa_tline) (int_of_z a.sa_tcol)) adds)
+
 let show_err (e : perr option) : string =
   match e with
   | None -> "ok"
@@ -81,7 +84,7 @@ let compile_of (input : n list) : string =
     let ((ctext, adds), cerr) = compose t in
     let (gtext, gerr) = generate t in
     String.concat "|" [ "done"; show_err e; hex_of_bytes (tree_dump t O); hex_of_bytes ctext; opt_err cerr;
-                        show_entries adds; hex_of_bytes gtext; opt_err gerr ]
+                        show_entries adds; hex_of_bytes gtext; opt_err gerr; show_adds adds ]
 
 let handle (line : string) : string =
   match String.split_on_char ' ' line with
